@@ -1,21 +1,30 @@
 (* C17 - the grpc-web client layer recovers messages and full trailers under any chunking.
    Statements only: each theorem is closed by [exact] of a lemma of Proofs/WebClient.v.
+   Every theorem is about the functions the harness h_webclient evaluates: [run_x] / [poll_frame_x]
+   (= obs_client_x, obs_client_hyper_x), [stack_streaming] (= obs_stack), [extend_panics],
+   [decode_trailers_frame], [call_size_hint] - the model of tonic-web/src/call.rs as it is after
+   the fixes c815a16a (F-C17j) and 2dcb76d4.
 
    Vocabulary (Model/WebClient.v, Model/WebServer.v, Proofs/WebClient.v):
      ev                     one scripted poll result of the wrapped body:
                             EvPending | EvData chunk | EvTrailers map | EvErr; afterwards End for ever
-     run evs                what a consumer of the GrpcWebCall response body sees when the wrapped
+     run_x evs              what a consumer of the GrpcWebCall response body sees when the wrapped
                             body plays [evs]: the non-Pending items up to and including the first
                             None / Err (OOutOfFuel = no result within the poll budget, OPanic)
+     xst                    the state of GrpcWebCall: decoded, trailers, inner_done, direction
+                            ([xs]) and expect_trailers ([expect])
      fcat frames            the bytes of the message frames (flag, be32 length, payload)
      trailers_frame tl      0x80, be32 length, "name:value\r\n" for every pair of [tl]
      frames_ok              flags 0 or 1, payloads shorter than 2^32
      trailers_ok            names are non-empty lower-case tokens of at most 65535 bytes, values are
                             legal http::HeaderValue bytes (so no CR / LF); names may repeat, values
                             may contain ':' and spaces
-     only_data_or_pending   the script consists of data chunks (possibly empty) and Pending *)
+     only_data_or_pending   the script consists of data chunks (possibly empty) and Pending
+     stack_streaming        tonic::client::Grpc::server_streaming (Model/Call.v, Model/Decoder.v)
+                            reading the body, drained with message(), then trailers() *)
 From Verif Require Import Lib.Bytes Lib.Obs Lib.BE32 Lib.HeaderMap Lib.Percent.
 From Verif Require Import Model.Frame Model.WebServer Model.WebClient Proofs.WebClient.
+From Verif Require Gen.StatusTables Gen.CompressionTables Model.Status Model.Decoder Model.Call.
 Open Scope N_scope.
 
 (* ANY frames x ANY trailer list x EVERY chunking of the encoded body, Pending anywhere: the data
@@ -27,9 +36,9 @@ Theorem c17_webc_any_chunking : forall frames tl evs,
   only_data_or_pending evs = true ->
   concat (datas evs) = fcat frames ++ trailers_frame tl ->
   exists ds t,
-    run evs = map OData ds ++ [OTrailers t; ONone] /\ concat ds = fcat frames /\
+    run_x evs = map OData ds ++ [OTrailers t; ONone] /\ concat ds = fcat frames /\
     t = tl /\ forall k, hm_get_all t k = hm_get_all tl k.
-Proof. exact any_chunking. Qed.
+Proof. exact any_chunking_x. Qed.
 
 (* the same without the restriction on leading spaces: what is read back is [read_back tl],
    every value minus ONE leading space ("name: value" and "name:value" are the same trailer) *)
@@ -38,53 +47,55 @@ Theorem c17_webc_any_chunking_ows : forall frames tl evs,
   nlen (encode_trailers tl) <= U32_MAX -> nlen tl <= HM_MAX_NAMES ->
   only_data_or_pending evs = true ->
   concat (datas evs) = fcat frames ++ trailers_frame tl ->
-  exists ds, run evs = map OData ds ++ [OTrailers (read_back tl); ONone] /\ concat ds = fcat frames.
-Proof. exact any_chunking_gen. Qed.
+  exists ds, run_x evs = map OData ds ++ [OTrailers (read_back tl); ONone] /\ concat ds = fcat frames.
+Proof. exact any_chunking_gen_x. Qed.
 
-(* EVERY strict prefix [P] of such a body that does not end exactly between two frames - it ends
-   inside a frame header, a payload or the trailers frame - in EVERY chunking: whole frames may
-   be delivered first, then an error; never a clean end, never trailers. *)
+(* TRUNCATION AT EVERY BYTE: EVERY non-empty strict prefix [P] of such a body - it may end inside
+   a frame header, inside a payload, inside the trailers frame or exactly between two frames - in
+   EVERY chunking: whole frames may be delivered first, then an error; never a clean end, never
+   trailers.  The error is E_EOF for a cut inside a frame and E_NoTrailers for a cut between two
+   frames (fix c815a16a, F-C17j), in which case every frame of the prefix was delivered.
+   (P = []: c17_webc_empty_body.) *)
 Theorem c17_webc_truncation_errors : forall frames tl evs P U,
   frames_ok frames -> trailers_ok tl = true ->
   nlen (encode_trailers tl) <= U32_MAX -> nlen tl <= HM_MAX_NAMES ->
   only_data_or_pending evs = true ->
-  P ++ U = fcat frames ++ trailers_frame tl -> U <> [] ->
-  (forall fa fb, frames = fa ++ fb -> P <> fcat fa) ->
+  P ++ U = fcat frames ++ trailers_frame tl -> U <> [] -> P <> [] ->
   concat (datas evs) = P ->
-  exists ds fa fb,
-    frames = fa ++ fb /\ concat ds = fcat fa /\ run evs = map OData ds ++ [OErr E_EOF].
-Proof. exact truncation_errors. Qed.
+  exists ds fa fb e,
+    frames = fa ++ fb /\ concat ds = fcat fa /\ run_x evs = map OData ds ++ [OErr e] /\
+    (e = E_EOF \/ (e = E_NoTrailers /\ P = fcat fa)).
+Proof. exact truncation_any_byte. Qed.
 
-(* what the code does with a body that stops exactly between two frames, in particular one
-   with NO trailers frame at all: all its frames are delivered and the body ends cleanly WITHOUT
-   trailers.  The property demands an error only for a cut INSIDE a frame; nothing on this tree
-   turns the missing trailers frame into an error afterwards (tonic's infer_grpc_status maps
-   "HTTP 200, no grpc-status" to Err(None), which Streaming treats as the end of the stream). *)
-Theorem c17_webc_no_trailers_frame : forall fa tl evs,
-  frames_ok fa -> trailers_ok tl = true ->
-  nlen (encode_trailers tl) <= U32_MAX -> nlen tl <= HM_MAX_NAMES ->
-  only_data_or_pending evs = true ->
+(* message frames WITHOUT a trailers frame, any chunking: every frame, then the error *)
+Theorem c17_webc_no_trailers_frame : forall fa evs,
+  frames_ok fa -> fa <> [] -> only_data_or_pending evs = true ->
   concat (datas evs) = fcat fa ->
-  exists ds, run evs = map OData ds ++ [ONone] /\ concat ds = fcat fa.
-Proof. exact cut_between_frames. Qed.
+  exists ds, run_x evs = map OData ds ++ [OErr E_NoTrailers] /\ concat ds = fcat fa.
+Proof. exact no_trailers_frame_x. Qed.
+
+(* a body without a single byte ends cleanly: that is the body of a trailers-only response,
+   whose status is in the HTTP headers (tonic's create_response), which this body cannot see *)
+Theorem c17_webc_empty_body : forall evs,
+  only_data_or_pending evs = true -> concat (datas evs) = [] -> run_x evs = [ONone].
+Proof. exact empty_body_x. Qed.
 
 (* ---------- "otherwise malformed => an error" ---------- *)
 (* In all four cases: valid message frames, then the defect, EVERY byte delivered, EVERY chunking,
-   Pending anywhere.  [run] ends with the error; by c17_webc_error_final every later poll
+   Pending anywhere.  [run_x] ends with the error; by c17_webc_error_final every later poll
    answers None, so the consumer sees exactly one Err and then None. *)
 
 (* (a) a byte that is no legal flag (not 0, 1, 0x80) where a frame has to start, followed by at
-   least four more bytes (with fewer the frame header is incomplete and the EOF error of
-   c17_webc_truncation_errors's kind arises instead): whole frames - possibly NOT all frames that
-   precede the defect: frames buffered together with the bad header are dropped - then
-   Err(E_BadFlag h) *)
+   least four more bytes (with fewer the frame header is incomplete and the EOF error arises
+   instead): whole frames - possibly NOT all frames that precede the defect: frames buffered
+   together with the bad header are dropped - then Err(E_BadFlag h) *)
 Theorem c17_webc_malformed_bad_flag : forall frames h t evs,
   frames_ok frames -> h <> 0 -> h <> 1 -> h <> GRPC_WEB_TRAILERS_BIT -> 4 <= nlen t ->
   only_data_or_pending evs = true ->
   concat (datas evs) = fcat frames ++ h :: t ->
   exists ds fa fb,
-    frames = fa ++ fb /\ concat ds = fcat fa /\ run evs = map OData ds ++ [OErr (E_BadFlag h)].
-Proof. exact malformed_bad_flag. Qed.
+    frames = fa ++ fb /\ concat ds = fcat fa /\ run_x evs = map OData ds ++ [OErr (E_BadFlag h)].
+Proof. exact malformed_bad_flag_x. Qed.
 
 (* (b) ANY bytes [Y] after a complete valid trailers frame, (c) in particular a second trailers
    frame: EVERY message frame, then Err(E_DataAfterTrailers); the trailers are not handed out *)
@@ -93,8 +104,8 @@ Theorem c17_webc_malformed_after_trailers : forall frames tl Y evs,
   nlen (encode_trailers tl) <= U32_MAX -> nlen tl <= HM_MAX_NAMES -> Y <> [] ->
   only_data_or_pending evs = true ->
   concat (datas evs) = fcat frames ++ trailers_frame tl ++ Y ->
-  exists ds, run evs = map OData ds ++ [OErr E_DataAfterTrailers] /\ concat ds = fcat frames.
-Proof. exact malformed_after_trailers. Qed.
+  exists ds, run_x evs = map OData ds ++ [OErr E_DataAfterTrailers] /\ concat ds = fcat frames.
+Proof. exact malformed_after_trailers_x. Qed.
 
 (* (d) a trailers frame whose block does not decode, whatever the reason (line without ':',
    illegal header name, illegal header value): EVERY message frame, then that error *)
@@ -103,8 +114,8 @@ Theorem c17_webc_malformed_trailers_block : forall frames P e evs,
   decode_trailers_frame (frame GRPC_WEB_TRAILERS_BIT P) = DErr e ->
   only_data_or_pending evs = true ->
   concat (datas evs) = fcat frames ++ frame GRPC_WEB_TRAILERS_BIT P ->
-  exists ds, run evs = map OData ds ++ [OErr e] /\ concat ds = fcat frames.
-Proof. exact malformed_trailers_block. Qed.
+  exists ds, run_x evs = map OData ds ++ [OErr e] /\ concat ds = fcat frames.
+Proof. exact malformed_trailers_block_x. Qed.
 
 (* ... in particular a line without ':' (and without CR) after any valid lines *)
 Theorem c17_webc_malformed_line_without_colon : forall frames tl line rest evs,
@@ -114,73 +125,151 @@ Theorem c17_webc_malformed_line_without_colon : forall frames tl line rest evs,
   nlen P <= U32_MAX ->
   only_data_or_pending evs = true ->
   concat (datas evs) = fcat frames ++ frame GRPC_WEB_TRAILERS_BIT P ->
-  exists ds, run evs = map OData ds ++ [OErr E_NoValue] /\ concat ds = fcat frames.
-Proof. exact malformed_line_without_colon. Qed.
+  exists ds, run_x evs = map OData ds ++ [OErr E_NoValue] /\ concat ds = fcat frames.
+Proof. exact malformed_line_without_colon_x. Qed.
 
 (* the four cases at once, by kind of tail (Proofs/WebClient.v tail_kind, expected_end) *)
 Theorem c17_webc_malformed_errors : forall tk frames evs,
   tail_ok tk -> frames_ok frames -> only_data_or_pending evs = true ->
   concat (datas evs) = fcat frames ++ tail_bytes tk ->
   exists ds fa fb,
-    frames = fa ++ fb /\ concat ds = fcat fa /\ run evs = map OData ds ++ expected_end tk /\
+    frames = fa ++ fb /\ concat ds = fcat fa /\ run_x evs = map OData ds ++ expected_end tk /\
     (is_bad tk = false -> fb = []).
-Proof. exact malformed_gen. Qed.
+Proof. exact malformed_gen_x. Qed.
+
+(* (e) the wrapped body fails at some point of ANY script (data, Pending, HTTP trailers before it,
+   anything after it): message frames may be delivered, then the run ends with an error (or the
+   explicit capacity panic) - never with a clean end, never with trailers *)
+Theorem c17_webc_inner_error_never_clean : forall pre post,
+  exists l o, run_x (pre ++ EvErr :: post) = l ++ [o] /\
+    (forall x, In x l -> exists d, x = OData d) /\ ((exists e, o = OErr e) \/ o = OPanic).
+Proof. exact inner_error_never_clean. Qed.
 
 (* No busy loop, for EVERY state and EVERY script (malformed bodies, inner errors and HTTP
    trailers included): with fuel [#events + 3] the loop of poll_frame always comes to a result,
    one call polls the wrapped body at most [#remaining events + 1] times, and the wrapped body
    is asked for its end at most once, ever. *)
-Theorem c17_webc_no_busy_loop : forall s i fuel o s' i',
-  (length (i_evs i) + 3 <= fuel)%nat -> good s i ->
-  poll_frame fuel s i = (o, s', i') ->
-  o <> OOutOfFuel /\ good s' i' /\ i_ends i' <= 1 /\
+Theorem c17_webc_no_busy_loop : forall X i fuel o X' i',
+  (length (i_evs i) + 3 <= fuel)%nat -> good_x X i ->
+  poll_frame_x fuel X i = (o, X', i') ->
+  o <> OOutOfFuel /\ good_x X' i' /\ i_ends i' <= 1 /\
   i_polls i' <= i_polls i + N.of_nat (length (i_evs i)) + 1.
-Proof. exact no_busy_loop. Qed.
+Proof. exact no_busy_loop_x. Qed.
 
-Theorem c17_webc_good_init : forall evs, good init (mk_inner evs).
-Proof. exact good_init. Qed.
+Theorem c17_webc_good_init : forall evs, good_x init_x (mk_inner evs).
+Proof. exact good_init_x. Qed.
 
 (* EVERY script whatsoever (malformed bodies, errors and HTTP trailers of the wrapped body
    included) is drained within the poll budget [#events + #bytes/5 + 4]: the consumer reaches the
    end, an error (or the explicit capacity panic) - never a hang *)
-Theorem c17_webc_never_hangs : forall evs, ~ In OOutOfFuel (run evs).
-Proof. exact never_hangs. Qed.
+Theorem c17_webc_never_hangs : forall evs, ~ In OOutOfFuel (run_x evs).
+Proof. exact never_hangs_x. Qed.
 
 (* an error is final *)
-Theorem c17_webc_error_final : forall s i fuel e s' i',
-  (length (i_evs i) + 3 <= fuel)%nat -> good s i ->
-  poll_frame fuel s i = (OErr e, s', i') ->
-  dir s' = Empty /\ forall fuel2, poll_frame fuel2 s' i' = (ONone, s', i').
-Proof. exact error_final. Qed.
+Theorem c17_webc_error_final : forall X i fuel e X' i',
+  (length (i_evs i) + 3 <= fuel)%nat -> good_x X i ->
+  poll_frame_x fuel X i = (OErr e, X', i') ->
+  dir (xs X') = Empty /\ forall fuel2, poll_frame_x fuel2 X' i' = (ONone, X', i').
+Proof. exact error_final_x. Qed.
 
-(* so is the end *)
-Theorem c17_webc_end_final : forall s i fuel s' i',
-  (length (i_evs i) + 3 <= fuel)%nat -> good s i ->
-  poll_frame fuel s i = (ONone, s', i') ->
-  forall fuel2, (1 <= fuel2)%nat -> poll_frame fuel2 s' i' = (ONone, s', i').
-Proof. exact end_final. Qed.
+(* so are the trailers *)
+Theorem c17_webc_trailers_final : forall X i fuel t X' i',
+  (length (i_evs i) + 3 <= fuel)%nat -> good_x X i ->
+  poll_frame_x fuel X i = (OTrailers t, X', i') ->
+  dir (xs X') = Empty /\ forall fuel2, poll_frame_x fuel2 X' i' = (ONone, X', i').
+Proof. exact trailers_final_x. Qed.
 
-(* Body::is_end_stream (fix f0f96413, F-C17i) keeps the http_body contract: whenever it answers
-   true - over a wrapped body that answers true only at its own end - the next poll returns None,
-   in EVERY state; a hyper-like consumer that stops there loses no frame and no trailers *)
-Theorem c17_webc_is_end_stream_contract : forall s i fuel,
-  call_is_end_stream 1 s i = true -> (2 <= fuel)%nat ->
-  fst (fst (poll_frame fuel s i)) = ONone.
-Proof. exact is_end_stream_contract. Qed.
+(* and the end *)
+Theorem c17_webc_end_final : forall X i fuel X' i',
+  (length (i_evs i) + 3 <= fuel)%nat -> good_x X i ->
+  poll_frame_x fuel X i = (ONone, X', i') ->
+  forall fuel2, (1 <= fuel2)%nat -> poll_frame_x fuel2 X' i' = (ONone, X', i').
+Proof. exact end_final_x. Qed.
+
+(* Body::is_end_stream (fixes f0f96413 F-C17i, c815a16a F-C17j) keeps the http_body contract:
+   whenever it answers true - over a wrapped body that answers true only at its own end - the
+   next poll returns None, in EVERY state; a hyper-like consumer that stops there loses no
+   frame, no trailers and no error *)
+Theorem c17_webc_is_end_stream_contract : forall X i fuel,
+  call_is_end_stream_x 1 X i = true -> (2 <= fuel)%nat ->
+  fst (fst (poll_frame_x fuel X i)) = ONone.
+Proof. exact is_end_stream_contract_x. Qed.
+
+(* Body::size_hint (fix 2dcb76d4) is sound in EVERY state: the lower bound is 0, and the only
+   upper bound it ever gives - exactly 0, direction Empty - is given when no frame follows *)
+Theorem c17_webc_size_hint_sound : forall X i fuel,
+  fst (call_size_hint X) = 0 /\
+  (forall u, snd (call_size_hint X) = Some u -> u = 0 /\ poll_frame_x fuel X i = (ONone, X, i)).
+Proof. exact size_hint_sound. Qed.
 
 (* the explicit panic sites: split_to is never out of bounds; HeaderMap::append overflows only
-   for a buffered trailers frame of more than 24576 lines *)
-Theorem c17_webc_panic_needs_many_lines : forall fuel s i s' i',
-  poll_frame fuel s i = (OPanic, s', i') ->
-  exists fr, HM_MAX_NAMES < nlen (split_crlf [] (ndrop 5 fr)).
-Proof. exact panic_needs_many_lines. Qed.
+   for a buffered trailers frame of more than 24576 lines, HeaderMap::extend only when the
+   trailers of the frame and the HTTP trailers of the wrapped body together reach 24576 names *)
+Theorem c17_webc_panic_needs_full_map : forall fuel X i X' i',
+  poll_frame_x fuel X i = (OPanic, X', i') ->
+  (exists fr, HM_MAX_NAMES < nlen (split_crlf [] (ndrop 5 fr))) \/
+  (exists cur t, extend_panics cur t = true /\ HM_MAX_NAMES <= nlen (names_of cur) + nlen (names_of t)).
+Proof. exact panic_needs_full_map_x. Qed.
 
 (* the capacity of http::HeaderMap, exactly: [n] lines with distinct valid names panic iff
-   n > 24576 (observed on the real crate as kind observe.header_map_capacity) *)
+   n > 24576 (observed on the real crate as kind observe.header_map_capacity) ... *)
 Theorem c17_webc_header_map_capacity : forall n, N.of_nat n <= 456976 ->
   decode_trailers_frame (trailers_frame (many_lines n 0)) =
   if HM_MAX_NAMES <? N.of_nat n then DPanic else DOk (Some (many_lines n 0)).
 Proof. exact decode_many_names. Qed.
+
+(* ... and merging HTTP trailers with one name (new or not) into those [n] names panics iff
+   n = 24576 (kind observe.header_map_extend_capacity, closed form [obs_extend_capacity]) *)
+Theorem c17_webc_extend_capacity : forall n k v, N.of_nat n <= 456976 ->
+  extend_panics (many_lines n 0) [(k, v)] = (N.of_nat n =? HM_MAX_NAMES).
+Proof. exact extend_capacity_exact. Qed.
+
+(* ---------- the caller's view ---------- *)
+(* CALLER SEES THE SERVER'S REAL STATUS.  ANY uncompressed messages [ps] (up to tonic's default
+   limit of 4 MiB each) x ANY trailer list x EVERY chunking, Pending anywhere; the response head is
+   not a trailers-only head (no grpc-status) and names no grpc-encoding.  tonic's
+   server_streaming() over the layer gives the caller exactly the messages, then exactly what
+   Status::from_header_map (C04) makes of the COMPLETE trailer list: an error status ends the
+   stream with that status (code, percent-decoded message, details, every other pair as
+   metadata); otherwise the stream ends OK and trailers() returns every pair. *)
+Theorem c17_caller_sees_status : forall ps tl evs headers,
+  Forall (fun p => nlen p <= Decoder.DEFAULT_MAX_RECV_MESSAGE_SIZE) ps ->
+  trailers_ok tl = true -> nlen (encode_trailers tl) <= U32_MAX -> nlen tl <= HM_MAX_NAMES ->
+  only_data_or_pending evs = true ->
+  concat (datas evs) = fcat (plain_frames ps) ++ trailers_frame tl ->
+  hm_get_all headers CompressionTables.hdr_grpc_encoding = [] ->
+  Status.from_header_map headers = None ->
+  stack_streaming 200 headers (flat_map bev_of (run_x evs)) (stack_fuel (run_x evs)) =
+  SRStream headers ps
+    match Status.infer_grpc_status (Some (read_back tl)) 200 with
+    | inr (Some st) => inl st
+    | _ => inr (Some (read_back tl))
+    end.
+Proof. exact stack_streaming_status. Qed.
+
+(* ... and EVERY non-empty strict prefix of such a response, in every chunking, ends at the caller
+   with an INTERNAL error after the messages of whole frames: never OK *)
+Theorem c17_caller_truncation : forall ps tl evs P U headers,
+  Forall (fun p => nlen p <= Decoder.DEFAULT_MAX_RECV_MESSAGE_SIZE) ps ->
+  trailers_ok tl = true -> nlen (encode_trailers tl) <= U32_MAX -> nlen tl <= HM_MAX_NAMES ->
+  only_data_or_pending evs = true ->
+  P ++ U = fcat (plain_frames ps) ++ trailers_frame tl -> U <> [] -> P <> [] ->
+  concat (datas evs) = P ->
+  hm_get_all headers CompressionTables.hdr_grpc_encoding = [] ->
+  Status.from_header_map headers = None ->
+  exists psa psb e,
+    ps = psa ++ psb /\ (e = E_EOF \/ e = E_NoTrailers) /\
+    stack_streaming 200 headers (flat_map bev_of (run_x evs)) (stack_fuel (run_x evs)) =
+      SRStream headers psa (inl (werr_status e)) /\
+    Status.st_code (werr_status e) = StatusTables.Code_Internal.
+Proof. exact stack_truncation. Qed.
+
+(* the model of the code before c815a16a ([run], about which Props/C16.v still states its
+   round trip) and the current one agree up to the new error: on a script without HTTP trailers
+   [run_x] is [run] with the clean end after message frames replaced by the error *)
+Theorem c17_webc_old_model : forall evs,
+  no_http_trailers evs = true -> run_x evs = xform false (run evs).
+Proof. exact run_x_run. Qed.
 
 (* ---------- the hypotheses are satisfiable on non-trivial values ---------- *)
 (* frames "hi" (flag 0), empty (flag 1), a payload that looks like a trailers frame header;
@@ -212,49 +301,80 @@ Proof.
 Qed.
 
 Example c17_run_example :
-  run ex_evs = [OData (fcat ex_frames); OTrailers ex_tl; ONone].
+  run_x ex_evs = [OData (fcat ex_frames); OTrailers ex_tl; ONone].
 Proof. vm_compute. reflexivity. Qed.
 
 (* message and trailers in one chunk (F-C17a), colon in a value (F-C17b), repeated names
    (F-C17c) *)
-Example c17_one_chunk : run [EvData ex_body] = [OData (fcat ex_frames); OTrailers ex_tl; ONone].
+Example c17_one_chunk : run_x [EvData ex_body] = [OData (fcat ex_frames); OTrailers ex_tl; ONone].
 Proof. vm_compute. reflexivity. Qed.
 
-(* truncated payload at EOF (F-C17f): an error, with the end of the wrapped body seen once *)
+(* truncated payload at EOF (F-C17f): an error, with the end of the wrapped body seen once; the
+   size hint is (0, None) before and exactly 0 after it *)
 Example c17_truncated_payload :
-  obs_client [EvData [0; 0; 0; 0; 5; 1; 2]] =
-  Nd [Nd [Nd [Nn 3; Nd [Nn 3]]]; Nd [Nd [Nn 0]; Nd [Nn 0]]; Nn 2; Nn 1].
+  obs_client_x [EvData [0; 0; 0; 0; 5; 1; 2]] =
+  Nd [Nd [Nd [Nn 3; Nd [Nn 3]]]; Nd [Nd [Nn 0]; Nd [Nn 0]]; Nn 2; Nn 1;
+      Nd [Nn 0; Nd []]; Nd [Nn 0; Nd [Nn 0]]].
 Proof. vm_compute. reflexivity. Qed.
+
+(* F-C17j (fixed by c815a16a): the frame "hi" and then nothing - the response was cut off exactly
+   before its trailers frame: the frame, then the error; the old model ended cleanly *)
+Example c17_missing_trailers :
+  run_x [EvData (frame 0 [104; 105])] = [OData (frame 0 [104; 105]); OErr E_NoTrailers] /\
+  run [EvData (frame 0 [104; 105])] = [OData (frame 0 [104; 105]); ONone] /\
+  run_x [] = [ONone] /\
+  run_x [EvData (frame 0 [104; 105]); EvTrailers [([120], [49])]] =
+    [OData (frame 0 [104; 105]); OTrailers [([120], [49])]; ONone].
+Proof. repeat split; vm_compute; reflexivity. Qed.
+
+(* ... and what the caller of server_streaming() sees of it: the message, then INTERNAL; for the
+   complete response (grpc-status:5) the message, then NOT_FOUND *)
+Example c17_missing_trailers_caller :
+  let head := [([99;111;110;116;101;110;116;45;116;121;112;101], WebConsts.GRPC_WEB_PROTO)] in
+  obs_stack 2 200 head [EvData (frame 0 [104; 105])] =
+    Nd [Nn 2; hm_canon head; Nd [Bs [104; 105]];
+        Nd [Nn 1; Nd [Nn 13; Bs T_NOTRAILERS; Bs []; Nd []]]] /\
+  obs_stack 2 200 head [EvData (frame 0 [104; 105] ++ trailers_frame [([103;114;112;99;45;115;116;97;116;117;115], [53])])] =
+    Nd [Nn 2; hm_canon head; Nd [Bs [104; 105]];
+        Nd [Nn 1; Nd [Nn 5; Bs []; Bs []; Nd []]]].
+Proof. split; vm_compute; reflexivity. Qed.
 
 (* malformed bodies: bad flag after a frame / stray byte after the trailers / second trailers
    frame / line without colon *)
 Example c17_malformed_examples :
-  run [EvData (frame 0 [104; 105] ++ [2; 0; 0; 0; 0])] = [OErr (E_BadFlag 2)] /\
-  run [EvData (frame 0 [104; 105]); EvData [2; 0; 0; 0; 0]] = [OData (frame 0 [104; 105]); OErr (E_BadFlag 2)] /\
-  run [EvData (frame 0 [104; 105] ++ trailers_frame ex_tl ++ [0])] = [OData (frame 0 [104; 105]); OErr E_DataAfterTrailers] /\
-  run [EvData (trailers_frame ex_tl); EvPending; EvData (trailers_frame ex_tl)] = [OErr E_DataAfterTrailers] /\
-  run [EvData (frame 128 [97; 98; 99; 13; 10])] = [OErr E_NoValue].
+  run_x [EvData (frame 0 [104; 105] ++ [2; 0; 0; 0; 0])] = [OErr (E_BadFlag 2)] /\
+  run_x [EvData (frame 0 [104; 105]); EvData [2; 0; 0; 0; 0]] = [OData (frame 0 [104; 105]); OErr (E_BadFlag 2)] /\
+  run_x [EvData (frame 0 [104; 105] ++ trailers_frame ex_tl ++ [0])] = [OData (frame 0 [104; 105]); OErr E_DataAfterTrailers] /\
+  run_x [EvData (trailers_frame ex_tl); EvPending; EvData (trailers_frame ex_tl)] = [OErr E_DataAfterTrailers] /\
+  run_x [EvData (frame 128 [97; 98; 99; 13; 10])] = [OErr E_NoValue].
 Proof. repeat split; vm_compute; reflexivity. Qed.
 
 (* F-C17i (fixed by f0f96413): the wrapped body hands over one chunk frame("hi") ++ trailers
    frame and then reports is_end_stream (as hyper's Incoming does).  A consumer that stops when
-   is_end_stream() is true now receives DATA and the TRAILERS and is stopped by nothing but the
+   is_end_stream() is true receives DATA and the TRAILERS and is stopped by nothing but the
    end; no frame is left behind *)
 Example c17_is_end_stream_not_early :
-  obs_client_hyper 1 [EvData (frame 0 [104; 105] ++ trailers_frame [([120], [49])])] =
+  obs_client_hyper_x 1 [EvData (frame 0 [104; 105] ++ trailers_frame [([120], [49])])] =
   Nd [Nd [Nd [Nn 1; Bs (frame 0 [104; 105])]; Nd [Nn 2; Nd [Nd [Bs [120]; Nd [Bs [49]]]]]]; Nn 0; Nd []].
 Proof. vm_compute. reflexivity. Qed.
 
 (* a last trailer line without its CRLF is a trailer (F-C17h) *)
 Example c17_unterminated_line :
-  run [EvData (frame 128 [103;114;112;99;45;115;116;97;116;117;115;58;53])] =
+  run_x [EvData (frame 128 [103;114;112;99;45;115;116;97;116;117;115;58;53])] =
   [OTrailers [([103;114;112;99;45;115;116;97;116;117;115], [53])]; ONone].
 Proof. vm_compute. reflexivity. Qed.
 
 (* OBSERVATION (not a violation of the property text, recorded): a value that starts with a
    space is read back without that space *)
 Example c17_leading_space_dropped :
-  run [EvData (trailers_frame [([120;45;107], [32; 118])])] = [OTrailers [([120;45;107], [118])]; ONone].
+  run_x [EvData (trailers_frame [([120;45;107], [32; 118])])] = [OTrailers [([120;45;107], [118])]; ONone].
+Proof. vm_compute. reflexivity. Qed.
+
+(* OBSERVATION: HTTP trailers of the wrapped body REPLACE the in-body trailers of the same name
+   (HeaderMap::extend), other names are kept *)
+Example c17_http_trailers_merge :
+  run_x [EvData (trailers_frame [([120], [49]); ([121], [50])]); EvTrailers [([120], [51])]] =
+  [OTrailers [([121], [50]); ([120], [51])]; ONone].
 Proof. vm_compute. reflexivity. Qed.
 
 Print Assumptions c17_webc_any_chunking.
@@ -262,13 +382,14 @@ Print Assumptions c17_webc_any_chunking_ows.
 Print Assumptions c17_webc_truncation_errors.
 Print Assumptions c17_webc_no_trailers_frame.
 Print Assumptions c17_webc_malformed_errors.
-Print Assumptions c17_webc_malformed_line_without_colon.
+Print Assumptions c17_webc_inner_error_never_clean.
 Print Assumptions c17_webc_no_busy_loop.
-Print Assumptions c17_webc_error_final.
-Print Assumptions c17_webc_end_final.
-Print Assumptions c17_webc_panic_needs_many_lines.
 Print Assumptions c17_webc_never_hangs.
-Print Assumptions c17_webc_header_map_capacity.
+Print Assumptions c17_webc_is_end_stream_contract.
+Print Assumptions c17_webc_panic_needs_full_map.
+Print Assumptions c17_webc_extend_capacity.
+Print Assumptions c17_caller_sees_status.
+Print Assumptions c17_caller_truncation.
 
 (* the constants written by hand in the model equal the ones regenerated from the Rust source
    (Gen/ConstTables.v, rewritten by rs2v on every run) *)
